@@ -61,6 +61,7 @@ TARGETS = {
     "c05_meta": ("nompi", ["harness/c05_meta.cpp"], False),
     "c11_mesh":   ("nompi", ["harness/c11_mesh.cpp"], False),
     "c11_pmap":   ("nompi", ["harness/c11_pmap.cpp"], False),
+    "c11_dist":   ("mpi", ["harness/c11_dist.cpp"], True),
 }
 GUARD_TARGETS = ["c11_mesh.guard", "c11_pmap.guard", "c05_streams.guard"]
 PROPERTY_TARGETS = {
@@ -68,7 +69,7 @@ PROPERTY_TARGETS = {
     "C12": ["c12_domain"],
     "C13": ["c13_scalar", "c13_app", "c13_app_neumann", "c13_q2", "c13_dg", "c13_blocked", "c13_stokes", "c13_tm", "c13_stokes_crrt", "c13_stokes_mg", "c13_tm.race"],
     "C05": ["c05_streams", "c05_checkpoint", "c05_streams.guard", "c05_meta"],
-    "C11": ["c11_mesh", "c11_pmap", "c11_mesh.guard", "c11_pmap.guard"],
+    "C11": ["c11_mesh", "c11_pmap", "c11_mesh.guard", "c11_pmap.guard", "c11_dist"],
     "SIMMPI": ["simmpi_selftest"],
     "RACE": ["race_selftest.race", "race_selftest"],
 }
